@@ -177,10 +177,6 @@ func ruleSig(r rules.Rule) string {
 
 func refSig(r refRule) string { return fmt.Sprintf("%s|%s|%d", r.typ, r.text, r.id) }
 
-func storageIdx(id, offset int) int64 {
-	return int64(int32(id))<<32 | int64(uint32(int32(offset)))
-}
-
 // RunC11 is one simulated I/O run for C11.
 func RunC11(ch *core.Chooser, env *Env) *Outcome {
 	out := newOutcome()
@@ -342,18 +338,17 @@ func RunC11(ch *core.Chooser, env *Env) *Outcome {
 		li  int
 		r   refRule
 	}
+	// The index of a rule is whatever the storage scanner reports with it: the
+	// property promises that it leads back to the rule, that it is the same
+	// for every backing and that no two rules share one - not how it is
+	// packed.  wants[k].idx is filled in by the first storage scan.
 	var wants []want
-	seen := map[int64]string{}
 	for li, rs := range refs {
 		for _, r := range rs {
-			idx := storageIdx(lists[li].ID, r.offset)
-			if prev, dup := seen[idx]; dup {
-				return fail("index-not-injective", fmt.Sprintf("storage index %d is produced for both %s and list %d offset %d", idx, prev, lists[li].ID, r.offset))
-			}
-			seen[idx] = fmt.Sprintf("list %d offset %d", lists[li].ID, r.offset)
-			wants = append(wants, want{idx, li, r})
+			wants = append(wants, want{0, li, r})
 		}
 	}
+	idxKnown := false
 	perm := make([]int, len(wants))
 	for i := range perm {
 		perm[i] = i
@@ -418,12 +413,14 @@ func RunC11(ch *core.Chooser, env *Env) *Outcome {
 						return
 					}
 					w := wants[k]
-					if ruleSig(r) != refSig(w.r) || idx != w.idx {
-						v = fail("scan-differs:"+cfg.name, fmt.Sprintf("rule #%d of the storage scan\n got:  %s index %d\n want: %s index %d (list %d offset %d)", k, ruleSig(r), idx, refSig(w.r), w.idx, w.r.id, w.r.offset))
+					if ruleSig(r) != refSig(w.r) {
+						v = fail("scan-differs:"+cfg.name, fmt.Sprintf("rule #%d of the storage scan\n got:  %s index %d\n want: %s (list %d offset %d)", k, ruleSig(r), idx, refSig(w.r), w.r.id, w.r.offset))
 						return
 					}
-					if int32(idx>>32) != int32(lists[w.li].ID) || int(int32(idx)) != w.r.offset {
-						v = fail("index-not-invertible", fmt.Sprintf("index %d does not decompose into list %d offset %d", idx, lists[w.li].ID, w.r.offset))
+					if !idxKnown {
+						wants[k].idx = idx
+					} else if idx != w.idx {
+						v = fail("scan-differs:"+cfg.name, fmt.Sprintf("rule #%d %s is reported with index %d by this scan and with index %d by the first scan (in-memory backing)", k, refSig(w.r), idx, w.idx))
 						return
 					}
 					k++
@@ -431,6 +428,17 @@ func RunC11(ch *core.Chooser, env *Env) *Outcome {
 				if k != len(wants) {
 					v = fail("scan-differs:"+cfg.name, fmt.Sprintf("scan #%d of the storage stops after %d of %d reference rules; next expected: %s", scanNo+1, k, len(wants), refSig(wants[k].r)))
 					return
+				}
+				if !idxKnown {
+					idxKnown = true
+					seen := map[int64]int{}
+					for k2, w := range wants {
+						if prev, dup := seen[w.idx]; dup {
+							v = fail("index-not-injective", fmt.Sprintf("index %d is reported both for %s (list %d offset %d) and for %s (list %d offset %d)", w.idx, refSig(wants[prev].r), wants[prev].r.id, wants[prev].r.offset, refSig(w.r), w.r.id, w.r.offset))
+							return
+						}
+						seen[w.idx] = k2
+					}
 				}
 			}
 			// retrieval in permuted order, three times (cold, then cached
@@ -447,12 +455,37 @@ func RunC11(ch *core.Chooser, env *Env) *Outcome {
 						v = fail("retrieve-differs:"+cfg.name, fmt.Sprintf("RetrieveRule(%d) pass %d\n got:  %s\n want: %s", w.idx, pass, ruleSig(r), refSig(w.r)))
 						return
 					}
-					if pass == 0 {
-						r2, err2 := b.Lists[w.li].RetrieveRule(w.r.offset)
-						if err2 != nil || r2 == nil || ruleSig(r2) != refSig(w.r) {
-							v = fail("retrieve-differs:"+cfg.name, fmt.Sprintf("list.RetrieveRule(%d) on list %d\n got:  %v err=%v\n want: %s", w.r.offset, w.r.id, r2, err2, refSig(w.r)))
-							return
-						}
+				}
+			}
+			// each list alone: what its own scanner reports leads back to
+			// the rule through its own RetrieveRule
+			for li, l := range b.Lists {
+				// scan to the end first, retrieve afterwards: interleaving
+				// Scan and RetrieveRule on one file-backed list is not part
+				// of the property (they share the file offset)
+				sc := l.NewScanner()
+				var lidxs []int
+				for sc.Scan() {
+					r, lidx := sc.Rule()
+					k := len(lidxs)
+					if k >= len(refs[li]) || ruleSig(r) != refSig(refs[li][k]) {
+						v = fail("scan-differs:"+cfg.name, fmt.Sprintf("list %d scanned alone: rule #%d is %s", lists[li].ID, k, ruleSig(r)))
+						return
+					}
+					lidxs = append(lidxs, lidx)
+				}
+				if len(lidxs) != len(refs[li]) {
+					v = fail("scan-differs:"+cfg.name, fmt.Sprintf("list %d scanned alone yields %d of %d rules", lists[li].ID, len(lidxs), len(refs[li])))
+					return
+				}
+				for k, lidx := range lidxs {
+					if many && k > 300 && k < len(lidxs)-50 {
+						continue
+					}
+					r2, err2 := l.RetrieveRule(lidx)
+					if err2 != nil || r2 == nil || ruleSig(r2) != refSig(refs[li][k]) {
+						v = fail("retrieve-differs:"+cfg.name, fmt.Sprintf("list.RetrieveRule(%d) on list %d\n got:  %v err=%v\n want: %s", lidx, lists[li].ID, r2, err2, refSig(refs[li][k])))
+						return
 					}
 				}
 			}
@@ -558,7 +591,7 @@ func cmpSeq(got, want []refRule) string {
 			return fmt.Sprintf("scan stops after %d rules; reference continues with %s at offset %d", len(got), refSig(want[i]), want[i].offset)
 		case i >= len(want):
 			return fmt.Sprintf("scan yields an extra rule #%d: %s at offset %d", i, refSig(got[i]), got[i].offset)
-		case refSig(got[i]) != refSig(want[i]) || got[i].offset != want[i].offset:
+		case refSig(got[i]) != refSig(want[i]):
 			return fmt.Sprintf("rule #%d\n got:  %s at offset %d\n want: %s at offset %d", i, trunc(refSig(got[i]), 300), got[i].offset, trunc(refSig(want[i]), 300), want[i].offset)
 		}
 	}
